@@ -290,6 +290,7 @@ protected:
     inline bool trackPartitions() const;
 #ifdef OPENSMT_VERIF
     void verifTraceState(char const * op, std::string const & extra) const;
+    void verifTracePreprocessed(std::size_t frameIndex, PTRef frameAssertions, PTRef given) const;
 #endif
 
     PTRef rewriteMaxArity(PTRef root);
